@@ -40,6 +40,31 @@ type CtlCase struct {
 	ReinstallAt int  `json:"reinstall_at,omitempty"`
 }
 
+// checkReplyDeadlines: every frame the library writes on its own while the
+// application reads (pong, close echo, 1002, 1009) goes out under a write
+// deadline of its own - a bounded one, whatever the application's write
+// deadline is - or a peer that does not read could block the reader for ever.
+func checkReplyDeadlines(log []xport.Op, from int, start time.Time) error {
+	var armed time.Time
+	for i, op := range log {
+		switch op.Kind {
+		case xport.OpSetWriteDeadline, xport.OpSetDeadline:
+			armed = op.Deadline
+		case xport.OpWrite:
+			if i < from {
+				continue
+			}
+			if armed.IsZero() {
+				return fmt.Errorf("an automatic reply (%d bytes) was written with no write deadline armed: a peer that has stopped reading blocks the reading application for ever", op.Asked)
+			}
+			if armed.Before(start.Add(-time.Minute)) || armed.After(time.Now().Add(time.Minute)) {
+				return fmt.Errorf("an automatic reply was written under the write deadline %v, which is not a deadline of its own (read started %v)", armed, start)
+			}
+		}
+	}
+	return nil
+}
+
 var errHandler = errors.New("harness: handler says no")
 
 // handlerNetErr is a handler error that is also a temporary, timed-out
@@ -139,8 +164,12 @@ func checkC08(c CtlCase, o *Obs) error {
 			cn.SetReadDeadline(time.Time{})
 		}
 	}
+	logFrom, readStart := len(tr.Log), time.Now()
 	rt := RunReadP(conn, c.Reads, len(model.Msgs)+1, lens, 4, prog)
 	afterReadError = nil
+	if err := checkReplyDeadlines(tr.Log, logFrom, readStart); err != nil {
+		return err
+	}
 
 	// expected handler events in wire order
 	type want struct {
